@@ -510,6 +510,10 @@ def reshape(x, shape, merge_chunks=True, limit=None):
 
     # Single partition case: use simple blockwise reshape
     expr = x.expr
+    if x.size == 0:
+        # Nothing to move: the chunk-alignment planner below assumes
+        # non-empty axes, so collapse an empty array to one block.
+        expr = expr.rechunk(tuple((d,) for d in x.shape))
     npartitions = reduce(mul, (len(c) for c in expr.chunks), 1)
     if npartitions == 1:
         return new_collection(ReshapeLowered(expr, shape, tuple((d,) for d in shape)))
